@@ -3,7 +3,7 @@
 
   Anchors (read line by line, defects kept):
     chain/consensus/stable_manager.go   IsConfirmEnough, StableManager.UpdateStable
-    chain/consensus/validator.go        VerifyNewConfirms, IsSigExist, VerifyConfirmPacket
+    chain/consensus/validator.go        VerifyNewConfirms (with the signer map of commit d34eb0a), IsSigExist, VerifyConfirmPacket
     chain/types/block.go                Block.IsConfirmExist   (byte comparison only)
     chain/consensus/dpovp.go            InsertBlock / saveNewBlock / InsertConfirms / insertConfirms
     chain/consensus/fork_manager.go     UpdateFork, UpdateForkForConfirm, ChooseNewFork, needSwitchFork, isCurrentForkCut
@@ -68,7 +68,9 @@ def CErr.name : CErr → String
   | .invalidSig => "ErrInvalidSignedConfirmInfo"
   | .invalidSigner => "ErrInvalidConfirmSigner"
 
-/-- loop of `Validator.VerifyNewConfirms` (as coded): `valid` and `lastErr` are the accumulators. -/
+/-- loop of `Validator.VerifyNewConfirms` AS IT WAS BEFORE /repo commit d34eb0a (bytes-only
+    de-duplication; kept for the refutation theorems and for `C03_ASIS` runs against a reverted tree):
+    `valid` and `lastErr` are the accumulators. -/
 def verifyLoop (n : Nat) (b : Blk) : List Sig → List Sig → CErr → List Sig × CErr
   | [], valid, e => (valid, e)
   | s :: rest, valid, e =>
@@ -84,9 +86,10 @@ def verifyLoop (n : Nat) (b : Blk) : List Sig → List Sig → CErr → List Sig
 def verifyNewConfirms (n : Nat) (b : Blk) (sigs : List Sig) : List Sig × CErr :=
   verifyLoop n b sigs [] .none
 
-/-- The repair (the diff proposed for validator.go): everything as before, plus one test — a
-    confirmation whose RECOVERED NODE is the miner (header signer), the signer of a stored confirm, or
-    the signer of a confirm accepted earlier in this call, is dropped. -/
+/-- loop of `Validator.VerifyNewConfirms` AS CODED NOW (/repo commit d34eb0a, the repair): everything
+    as before, plus one test — a confirmation whose RECOVERED NODE is the miner (header signer), the
+    signer of a stored confirm, or the signer of a confirm accepted earlier in this call, is dropped
+    (the `signers` map). This is the live model: the driver runs it by default. -/
 def verifyLoopFixed (n : Nat) (b : Blk) : List Sig → List Sig → CErr → List Sig × CErr
   | [], valid, e => (valid, e)
   | s :: rest, valid, e =>
